@@ -59,12 +59,23 @@ class Gen:
         self.vars = {}
         self.max_dim = max_dim
         self.cell = cell
+        self._fresh = []
+
+    def fresh(self):
+        """a new index object; created in batches and handed out in random order so that the
+        counts of the indices are not correlated with the order in which a traversal meets them"""
+        if not self._fresh:
+            self._fresh = [Index() for _ in range(6)]
+            self.rng.shuffle(self._fresh)
+        return self._fresh.pop()
 
     # ---- helpers
     def p(self, knob):
         return self.rng.random() < self.k[knob]
 
     def dim(self):
+        if self.max_dim >= 3 and self.k["zeros"] >= 0.3:
+            return self.rng.choice([2, 3])
         return self.rng.choice([2, 2, 2, 3] if self.max_dim >= 3 else [2])
 
     def coef(self, shape):
@@ -81,7 +92,7 @@ class Gen:
             cand = [i for i in self.pool if i not in forbidden]
             if cand:
                 return self.rng.choice(cand)
-        return Index()
+        return self.fresh()
 
     @staticmethod
     def fiset(e):
@@ -103,12 +114,16 @@ class Gen:
             return Zero((), tuple(i for i, _ in items), tuple(d for _, d in items))
         if depth <= 0:
             return self.check(self.leaf(fi), (), fi)
-        prods = ["sum", "prod", "prod", "isum", "isum", "ct", "ct", "ct", "leaf", "math"]
+        prods = ["sum", "prod", "prod", "isum", "isum", "ct", "ct", "ct", "leaf", "math", "ctpair"]
         if self.k["lists"] > 0:
             prods += ["lt"]
         if self.k["variables"] > 0:
             prods += ["var"]
         prods += ["cond"]
+        if self.k["zeros"] >= 0.3 and len(fi) >= 2:
+            prods += ["zero", "zero", "zero"]
+        if not self.hyg and fi and self.rng.random() < self.k["reuse"]:
+            prods += ["shadow", "shadow", "shadow"]
         for _ in range(6):
             kind = rng.choice(prods)
             try:
@@ -183,8 +198,13 @@ class Gen:
             return ufl.classes.Division(a, IntValue(2))
         return Product(IntValue(-1), a)
 
+    def condition(self, depth):
+        d = min(max(depth - 1, 0), 2) if self.rng.random() < 0.5 else 0
+        op = self.rng.choice([ufl.classes.LT, ufl.classes.GT])
+        return op(self.scalar({}, d), self.scalar({}, 0))
+
     def s_cond(self, fi, depth):
-        c = ufl.classes.LT(self.scalar({}, 0), self.scalar({}, 0))
+        c = self.condition(depth)
         return Conditional(c, self.scalar(fi, depth - 1, allow_zero=True), self.scalar(fi, depth - 1))
 
     def index_into(self, fi, make_tensor, max_rank=2):
@@ -209,6 +229,75 @@ class Gen:
 
     def s_ct(self, fi, depth):
         return self.index_into(fi, lambda sh, f: self.t_ct(sh, f, depth))
+
+    def zero(self, fi):
+        items = sorted((i.count(), d) for i, d in fi.items())
+        return Zero((), tuple(i for i, _ in items), tuple(d for _, d in items))
+
+    def s_zero(self, fi, depth):
+        """a Zero carrying all the free indices, kept alive by a Conditional or a ListTensor"""
+        rng = self.rng
+        z, other = self.zero(fi), self.scalar(fi, max(depth - 1, 0))
+        if rng.random() < 0.6:
+            c = self.condition(depth)
+            return Conditional(c, z, other) if rng.random() < 0.5 else Conditional(c, other, z)
+        ops = [z, other] if rng.random() < 0.5 else [other, z]
+        return Indexed(ListTensor(*ops), MultiIndex((FixedIndex(rng.randrange(2)),)))
+
+    def s_shadow(self, fi, depth):
+        """an index that is free here (bound by an enclosing scope) is bound AGAIN by an inner sum
+        that a traversal meets before a later read of the outer binding"""
+        rng = self.rng
+        i, d = rng.choice(list(fi.items()))
+        inner = IndexSum(self.scalar({i: d}, max(depth - 2, 0)), MultiIndex((i,)))
+        kind = rng.choice(["cond", "cond", "prod", "sum"])
+        rest = self.scalar(fi, max(depth - 1, 0))
+        if kind == "cond":
+            c = rng.choice([ufl.classes.LT, ufl.classes.GT])(inner, self.scalar({}, 0))
+            return Conditional(c, rest, self.scalar(fi, max(depth - 1, 0)))
+        if kind == "prod":
+            return Product(inner, rest)
+        return Sum(Product(inner, rest), self.scalar(fi, max(depth - 1, 0)))
+
+    def s_ctpair(self, fi, depth):
+        """one scalar body bound by two ComponentTensors with different index tuples (permuted
+        or partial), both accessed with the same outer multi-index"""
+        rng = self.rng
+        d = self.dim()
+        p, q = self.binder(fi), self.binder(fi)
+        if p == q or p in fi or q in fi:
+            p, q = self.fresh(), self.fresh()
+        kind = rng.choice(["transpose", "transpose", "partial"])
+        avail = [i for i, dd in fi.items() if dd == d]
+
+        def entry():
+            if avail and rng.random() < 0.5:
+                return rng.choice(avail)
+            return FixedIndex(rng.randrange(d))
+        if kind == "transpose":
+            mi = (entry(), entry())
+            used = {i for i in mi if isinstance(i, Index)}
+            fb = {i: dd for i, dd in fi.items() if i not in used or rng.random() < 0.3}
+            fb.update({p: d, q: d})
+            body = self.scalar(fb, max(depth - 1, 0))
+            t1 = ComponentTensor(body, MultiIndex((p, q)))
+            t2 = ComponentTensor(body, MultiIndex((q, p)))
+        else:
+            mi = (entry(),)
+            used = {i for i in mi if isinstance(i, Index)}
+            fb = {i: dd for i, dd in fi.items() if i not in used or rng.random() < 0.3}
+            fb.update({p: d, q: d})
+            body = self.scalar(fb, max(depth - 1, 0))
+            # the index left free by one scope is bound by an enclosing scope of the other
+            t1 = ComponentTensor(Indexed(ComponentTensor(body, MultiIndex((p,))), MultiIndex(mi)), MultiIndex((q,)))
+            t2 = ComponentTensor(Indexed(ComponentTensor(body, MultiIndex((q,))), MultiIndex(mi)), MultiIndex((p,)))
+        a, b = Indexed(t1, MultiIndex(mi)), Indexed(t2, MultiIndex(mi))
+        for k in fi:                      # make sure both carry all required free indices
+            if k.count() not in a.ufl_free_indices or k.count() not in b.ufl_free_indices:
+                raise GenError("free indices")
+        if rng.random() < 0.5:
+            return Sum(a, Product(IntValue(-1), b))
+        return Product(a, b)
 
     def s_lt(self, fi, depth):
         return self.index_into(fi, lambda sh, f: self.t_lt(sh, f, depth), max_rank=2)
@@ -262,7 +351,7 @@ class Gen:
                 elif kind == "sum":
                     e = Sum(self.tensor(shape, fi, depth - 1), self.tensor(shape, fi, depth - 1))
                 elif kind == "cond":
-                    c = ufl.classes.GT(self.scalar({}, 0), self.scalar({}, 0))
+                    c = self.condition(depth)
                     e = Conditional(c, self.tensor(shape, fi, depth - 1), self.tensor(shape, fi, depth - 1))
                 else:
                     e = getattr(self, "t_" + kind)(shape, fi, depth)
@@ -280,11 +369,14 @@ class Gen:
                 if j not in js:
                     break
             else:
-                j = Index()
+                j = self.fresh()
             js.append(j)
             f2[j] = d
         d2 = depth - 1 if self.p("nested") else min(depth - 1, 1)
-        body = self.scalar(f2, max(d2, 0))
+        if self.k["zeros"] >= 0.3 and len(f2) >= 2 and self.rng.random() < 0.7:
+            body = self.check(self.s_zero(f2, max(d2, 0)), (), f2)
+        else:
+            body = self.scalar(f2, max(d2, 0))
         return ComponentTensor(body, MultiIndex(tuple(js)))
 
     def t_lt(self, shape, fi, depth):
@@ -309,14 +401,28 @@ class Gen:
     def top(self, depth, closed_scalar=False):
         rng = self.rng
         if closed_scalar:
+            if not self.hyg and rng.random() < 0.5:
+                # an enclosing scope (sum or component tensor) over an index that is re-bound inside
+                i, d = rng.choice(self.pool), self.dim()
+                body = self.s_shadow({i: d}, depth - 1)
+                if rng.random() < 0.5:
+                    return self.check(IndexSum(body, MultiIndex((i,))), (), {})
+                ct = ComponentTensor(body, MultiIndex((i,)))
+                return self.check(Indexed(ct, MultiIndex((FixedIndex(rng.randrange(d)),))), (), {})
             return self.scalar({}, depth)
         nfree = rng.choice([0, 0, 1, 1, 2])
         fi = {}
         for _ in range(nfree):
-            i = Index() if (self.hyg or rng.random() < 0.5) else rng.choice(self.pool)
-            fi[i] = 2 if nfree == 2 else self.dim()
+            i = self.fresh() if (self.hyg or rng.random() < 0.5) else rng.choice(self.pool)
+            if i in fi:
+                i = self.fresh()
+            fi[i] = (2 if len(fi) == 0 else rng.choice([2, 3])) if nfree == 2 else self.dim()
         rank = rng.choice([0, 0, 0, 1, 1, 2]) if nfree < 2 else rng.choice([0, 0, 1])
-        shape = tuple(2 if (rank == 2 or nfree) else self.dim() for _ in range(rank))
+        if self.k["zeros"] >= 0.3 and nfree == 0 and rng.random() < 0.5:
+            rank = 2
+        shape = tuple(2 if nfree else self.dim() for _ in range(rank))
+        if rank == 2 and shape == (3, 3):
+            shape = (3, 2)
         return self.tensor(shape, fi, depth)
 
 
